@@ -212,6 +212,8 @@ static void runBody(const Spec& s) {
       if (tag(id).finishes != 1) {
         std::string cls = std::string("nested-TaskSet:") + "nested:unfinished-at-wait";
         sim_fail(cls.c_str(), "nested wait() returned with task %d unfinished", id);
+      } else {
+        tagObserve(id);
       }
   }
   if (s.cancels)
@@ -350,6 +352,7 @@ static void checkBarrier(const char* how, int upto, bool canceledOrThrew) {
       std::string cls = std::string(kindName(g->kind)) + ":" + apiName(t.api) + ":not-run-at-" + how;
       sim_fail(cls.c_str(), "%s returned but task %d (%s) never ran (no cancellation)", how, i, apiName(t.api));
     }
+    tagObserve(i);
   }
 }
 
@@ -690,6 +693,7 @@ static void wlInvoke() {
       snprintf(cls, sizeof cls, "parallel_invoke:%s:depth%d", t.starts == 0 ? "lost" : "unfinished-at-wait", (int)t.aux);
       sim_fail(cls, "functor %d starts=%d finishes=%d after wait()", i, t.starts, t.finishes);
     }
+    tagObserve(i);
   }
 }
 
